@@ -59,7 +59,9 @@ SETTER = {'description': 'setDescription', 'reference': 'setReference', 'organiz
 WS = [chr(c) for c in (9, 10, 11, 12, 13, 28, 29, 30, 31, 32, 133, 160, 5760, 8192, 8232, 8233, 8239, 12288)]
 SPECIAL = ['\\', '\\\\', '\\n', '\\x', '\\x4', '\\x41', '\\u12', '\\u0041', '\\U0001F600', '\\N{DASH}', '\\N', '\\0', '\\101', '\\8', "'", "'''", '\\\'',
            '{{ 1+1 }}', '{% raw %}', '#', '%s', '%(x)s', '$', '`', '\0', '\x01', '\x7f', '\x1b', 'é', 'ß', 'Ω', '中', ' ', '﻿', '\U0001D6C0',
-           '\U0001F600', '\udc80' if False else 'ÿ', '<', '>', '&', '\\"'[:1]]
+           '\U0001F600', '\udc80' if False else 'ÿ', '<', '>', '&', '\\"'[:1],
+           # code points that Unicode normalisation would replace (a text filter may touch white space only)
+           '\u2126', '\u212a', '\u212b', 'e\u0301', 'A\u030a', '\uf900', '\ufb01', '\u1e9b\u0323', '\u00b5', '\u2460']
 WORDS = ['the', 'quick', 'brown', 'fox', 'C:', 'new', 'table', 'x' * 90, 'a-b', 'RFC', '1213', 'see', 'section', '4.2', 'units/sec', 'END', 'BEGIN',
          'MACRO', '--', 'comment']
 
